@@ -191,7 +191,13 @@ class Sym:
                     return _combine_bytes(l + r)
             if isinstance(e.op, (ast.Div,)) and r.is_const() and r.const != 0:
                 return l.scale(Fraction(1) / r.const)
-            return Lin.of_term(("call", type(e.op).__name__, (_t(l), _t(r))))
+            opname = type(e.op).__name__
+            if opname == "Mod" and r.is_const() and r.const > 0 and r.const.denominator == 1 and (int(r.const) & (int(r.const) - 1)) == 0:
+                opname, r = "BitAnd", Lin.of_const(int(r.const) - 1)   # x % 2**k == x & (2**k - 1)
+            ops = (_t(l), _t(r))
+            if opname in ("BitAnd", "BitOr", "BitXor", "Mult"):
+                ops = tuple(sorted(ops, key=lambda t: (t[0] == "lin" and t[1].is_const(), repr(t))))
+            return Lin.of_term(("call", opname, ops))
         if isinstance(e, ast.Subscript):
             base = self.term(e.value)
             if isinstance(e.slice, ast.Slice):
@@ -386,4 +392,66 @@ def entails_eq(facts: List[Fact], q: Lin) -> bool:
                     for g in facts:
                         if g is not f and g.kind == "eq" and (g.lin == rest or g.lin == -rest):
                             return True
+    return False
+
+
+def domain_constraints(facts: List[Fact], term: Tuple):
+    """(allowed values or None, excluded values, symbolic terms it equals) for a term."""
+    allowed = None
+    excluded: set = set()
+    equals: List[Tuple] = []
+    for f in facts:
+        if f.kind in ("eq", "ne") and f.lin is not None and term in f.lin.terms and abs(f.lin.terms[term]) == 1:
+            rest = f.lin - Lin({term: f.lin.terms[term]})
+            rest = rest.scale(Fraction(-1) / f.lin.terms[term])
+            if rest.is_const():
+                v = int(rest.const)
+                if f.kind == "eq":
+                    allowed = {v} if allowed is None else allowed & {v}
+                else:
+                    excluded.add(v)
+            elif f.kind == "eq":
+                t = rest.single_term()
+                if t is not None:
+                    equals.append(t)
+        elif f.kind in ("in", "notin") and f.lin is not None and f.lin.single_term() == term:
+            if f.kind == "in":
+                allowed = set(f.data) if allowed is None else allowed & set(f.data)
+            else:
+                excluded |= set(f.data)
+    return allowed, excluded, equals
+
+
+def contradicts(assume: List[Fact], f: Fact) -> bool:
+    """Do the assumptions make fact f impossible?  (sound, incomplete)"""
+    if f.kind == "ne":
+        return entails_eq(assume, f.lin)
+    if f.kind == "ge":
+        return entails_ge(assume, (-f.lin) - Lin.of_const(1))
+    if f.kind == "eq":
+        if any(a.kind == "ne" and (a.lin == f.lin or a.lin == -f.lin) for a in assume):
+            return True
+        if entails_ge(assume, f.lin - Lin.of_const(1)) or entails_ge(assume, (-f.lin) - Lin.of_const(1)):
+            return True
+        # t == c against the domain the assumptions give t
+        for t, c in f.lin.terms.items():
+            if abs(c) == 1:
+                rest = (f.lin - Lin({t: c})).scale(Fraction(-1) / c)
+                if rest.is_const():
+                    allowed, excluded, _ = domain_constraints(assume, t)
+                    v = int(rest.const)
+                    if v in excluded or (allowed is not None and v not in allowed):
+                        return True
+        return False
+    if f.kind in ("in", "notin"):
+        t = f.lin.single_term()
+        if t is None:
+            return False
+        allowed, excluded, _ = domain_constraints(assume, t)
+        if f.kind == "in":
+            return (allowed is not None and not (allowed & set(f.data))) or set(f.data) <= excluded
+        return allowed is not None and allowed <= set(f.data)
+    if f.kind in ("truthy", "falsy"):
+        opp = "falsy" if f.kind == "truthy" else "truthy"
+        return any(a.kind == opp and a.data == f.data for a in assume)
     return False
